@@ -80,6 +80,25 @@ func runMayPanic(run *core.Run, dir string, tag string, exclude []string) ([]mpF
 	return fs, s, true
 }
 
+// c19Module is the module path of the C19 programs: it starts with a word of the tool's built-in allow-list
+// ("go") without being inside it, so that the allow-list's package matching is exercised at its boundary.
+const c19Module = "gopkg.in/vprog.v1"
+
+// hostileModule renames the module of a generated program (imports and go.mod).
+func hostileModule(files map[string]string) map[string]string {
+	out := map[string]string{}
+	for n, c := range files {
+		out[n] = strings.ReplaceAll(c, "\"vprog/", "\""+c19Module+"/")
+	}
+	for n, c := range gen.RuntimeFiles() {
+		if n == "go.mod" {
+			c = "module " + c19Module + "\n\ngo 1.22\n"
+		}
+		out[n] = c
+	}
+	return out
+}
+
 var reCreatedBy = regexp.MustCompile(`created by [^\n]+\n\s+(\S+):(\d+)`)
 var reMark = regexp.MustCompile(`// (?:entry:(\d+))?\s*(?:go:(\d+))?`)
 
@@ -95,7 +114,7 @@ func C19(tier string) {
 		}
 	}
 	dir := filepath.Join(run.Scratch, "prog")
-	files := gen.RenderPanicProgram(cases)
+	files := hostileModule(gen.RenderPanicProgram(cases))
 	if err := gen.WriteProgram(dir, files); err != nil {
 		run.Inconclusive(err.Error())
 		run.Finish("exploration", "")
@@ -201,7 +220,7 @@ func C19(tier string) {
 			if run.IsKnown(sig) {
 				return
 			}
-			single := gen.RenderPanicProgram([]gen.PanicCase{c})
+			single := hostileModule(gen.RenderPanicProgram([]gen.PanicCase{c}))
 			run.Violation(sig, fmt.Sprintf("go form %q with recover form %q: the goroutine entry function declared at %s has no recovering defer (a native run died with its panic: created by %s) but is not in the may-panic report", gf.Name, rf.Name, entryLine[c.N], o.createdBy), withRT(single))
 			return
 		}
@@ -214,7 +233,7 @@ func C19(tier string) {
 		if !hasCreator {
 			sig := "creator-missing:" + gf.Name + suffix
 			if !run.IsKnown(sig) {
-				single := gen.RenderPanicProgram([]gen.PanicCase{c})
+				single := hostileModule(gen.RenderPanicProgram([]gen.PanicCase{c}))
 				run.Violation(sig, fmt.Sprintf("go form %q / %q: entry reported but its creation site %s is not among the creators %v", gf.Name, rf.Name, goLine[c.N], f.Creators), withRT(single))
 			}
 		}
